@@ -294,7 +294,7 @@ pub fn run(run: &Run) {
 	run.set_rule("programs biased towards hash-ordered internals (objects with 5-60 permuted/near-duplicate field names that are listed, manifested in every format, compared, patched, pruned, iterated; removed keys; missing fields and unknown variables with several equally similar suggestions; objects with several failing fields or assertions; duplicate computed names; arity errors; format key errors; stack-limit hits) plus type-directed programs. Each is rendered (value text, or full CompactFormat error text) on a fresh thread and must be byte-identical on: a thread with thousands of pre-interned strings and a leaked heap prefix; after a random history of succeeding/failing/stack-limited/infinitely-recursive evaluations; on one long-lived state after that history, twice in a row; and (sample) in three separate processes. Non-trivial = program of a hash-sensitive class or a history containing failures.");
 	run.assume("address-space variation is produced by ASLR between processes and by heap/pool perturbation between threads on this platform and allocator only");
 	let counter = std::sync::atomic::AtomicU64::new(0);
-	let n = run.tier.pick(1_500, 50_000);
+	let n = run.tier.pick(3_000, 50_000);
 	run.explore("programs", n, 30..=400, |src| {
 		let k = counter.fetch_add(1, std::sync::atomic::Ordering::SeqCst);
 		check(src, k % 6 == 0)
